@@ -200,9 +200,7 @@ def cases(tier, seed):
     seed = int(seed)
     out = []
     # reference self-validation (jax autodiff of the textbook pdfs vs. the numpy scores/Fisher used in bulk)
-    for kind in KINDS:
-        for npix in (1, 2):
-            out.append(dict(kind=kind, wrap="refcheck", npix=npix, pt=[], seed=seed, tier=tier))
+    ref = [dict(kind=kind, wrap="refcheck", npix=2, pt=[], seed=seed, tier=tier) for kind in KINDS]
     npixs = (1, 2) if tier == "quick" else (1, 2, 3)
     full_limit = 64 if tier == "quick" else 1024
     for npix in npixs:
@@ -220,8 +218,11 @@ def cases(tier, seed):
                     out.append(dict(kind=kind, wrap=wrap, npix=npix, pt=pt, seed=seed, tier=tier))
     worder = list(WRAPS)
     korder = list(KINDS)
-    out.sort(key=lambda c: (c["wrap"] != "refcheck", c["npix"], worder.index(c["wrap"]) if c["wrap"] in worder else -1,
-                            korder.index(c["kind"]), sum(c["pt"]), c["pt"]))
+    out.sort(key=lambda c: (c["npix"], worder.index(c["wrap"]), korder.index(c["kind"]), sum(c["pt"]), c["pt"]))
+    # the (slow, jax) reference validations are spread evenly so that they run on different workers
+    step = max(1, len(out) // len(ref))
+    for i, r in enumerate(ref):
+        out.insert(min(len(out), i * (step + 1)), r)
     return out
 
 
@@ -722,7 +723,7 @@ def check_point(sp, xi, xi0):
         refdev = max(refdev, rel(F.proj(Fs, T), F.proj(Fc, T)), abs(float(W.sum()) - 1.))
         J = t.jac(xb, sp.offs, sp.D)
         Fxi += J.T @ Fs @ J
-        per.append((Dm, W, g, J))
+        per.append((Dm, W, g, J, t.fam.logpdf(th, Dm), t.fam.logpdf(t.theta(xb0), Dm)))
     if refdev > 1e-11:
         return [("harness", "reference", "enumerated Fisher != closed form (%.2e)" % refdev)], {}
     Fref = sp.scale * Fxi + (np.eye(sp.D) if sp.ham else 0.)
@@ -757,8 +758,7 @@ def check_point(sp, xi, xi0):
         dv = 0.
         gref = np.zeros(sp.D)
         for k, (t, i) in enumerate(zip(sp.terms, idx)):
-            Dk = per[k][0][i:i + 1]
-            dv += float(-t.fam.logpdf(thetas[k], Dk)[0] + t.fam.logpdf(thetas0[k], Dk)[0])
+            dv += float(-per[k][4][i] + per[k][5][i])
             gref += per[k][3].T @ per[k][2][i]
         dv *= sp.scale
         gref = sp.scale * gref
@@ -843,7 +843,7 @@ def libname(kind, clause=""):
 
 def refcheck(case):
     """Validate the reference itself: numpy scores / closed-form Fisher / model Jacobians against jax autodiff of
-    jax.scipy.stats and scipy.stats, at all four diagonal grid points."""
+    jax.scipy.stats and scipy.stats, at two diagonal grid points."""
     import jax
     import jax.numpy as jnp
     from vf.ref import c11_families as F
@@ -852,7 +852,7 @@ def refcheck(case):
     nout = 0
     for wrap in ["plain"] + [w for w in ("lin", "link", "explin") if w in WRAPS_FOR[KINDS[kind]]]:
         sp = build_spec(kind, wrap, npix, seed, tier)
-        for a in range(4):
+        for a in (0, 2):
             xi = xi_from_point(sp, [(a + j) % 4 for j in range(len(sp.axes))])
             xb = split(sp, xi)
             t = sp.terms[0]
@@ -876,8 +876,19 @@ def refcheck(case):
 
 def run(case):
     kind, wrap, npix, seed, tier = case["kind"], case["wrap"], case["npix"], case["seed"], case.get("tier", "quick")
+    import time
+    t0 = time.process_time()
     if wrap == "refcheck":
-        return refcheck(case)
+        out = refcheck(case)
+        out.setdefault("stats", {})["cpu_s"] = time.process_time() - t0
+        return out
+    out = run_case(case)
+    out.setdefault("stats", {})["cpu_s"] = time.process_time() - t0
+    return out
+
+
+def run_case(case):
+    kind, wrap, npix, seed, tier = case["kind"], case["wrap"], case["npix"], case["seed"], case.get("tier", "quick")
     sp = build_spec(kind, wrap, npix, seed, tier)
     pt = case["pt"]
     xi = xi_from_point(sp, pt)
